@@ -436,11 +436,12 @@ def plan_ops(doc: dict, man: dict, args: dict) -> list:
                             nonstr.add(f"{loc}:{p['kind']}" if loc == "header" else loc)
                         continue
                     try:
-                        tok.edge = 0.12 if loc == "query" else 0.0
+                        tok.edge = 0.15 if loc != "path" else 0.0
+                        tok.edge_ascii = loc in ("header", "cookie")
                         v = docs.instance(dp.get("schema", {}), comps, tok, "rand" if ci else "max", 1)
-                        tok.edge = 0.0
+                        tok.edge, tok.edge_ascii = 0.0, False
                     except (docs.Bottomless, RecursionError):
-                        tok.edge = 0.0
+                        tok.edge, tok.edge_ascii = 0.0, False
                         ok = False
                         break
                     if v is None:
@@ -707,8 +708,9 @@ def plan_c10(doc, man, args):
     a = dict(args, per_model=12)
     a["import"] = False
     out = plan_models(doc, man, a)
-    a["calls_per_op"] = 0
-    out += [x for x in plan_ops(doc, man, a) if x["a"] == "endpoint_info"]
+    a["calls_per_op"] = int(args.get("calls_per_op", 3))
+    # signatures and - for the tri-state of parameters on the wire - the calls themselves (edge values included: 0, false, "" are *present*)
+    out += [x for x in plan_ops(doc, man, a) if x["a"] in ("endpoint_info", "call")]
     return out
 
 
